@@ -114,15 +114,25 @@ def judge_fail(case, obs):
             v.bad("C12/%s/no-message" % tagbase, "entropy failure: exit %d without a message" % o["exit"])
         v.bucket(tagbase if not xm.get("vanity") else "fail-vanity-error-exit")
     else:
-        if not xm.get("vanity"):
-            return v.bad("C12/%s/phrase-printed" % tagbase, "the only entropy request failed but a phrase was printed: %r" % o["stdout"][:80])
+        # A phrase was printed although a request failed. That is only conforming if every bit of it still comes from a
+        # request that *succeeded* (a vanity match found before the fault, or a retry that was really served) and, for a
+        # vanity search, the phrase really has the prefix.
         try:
             words, ent = _phrase_entropy(o["stdout"])
         except ValueError as e:
-            return v.bad("C12/fail-vanity/invalid-phrase", "printed phrase is invalid (%s)" % e)
-        if ent.hex() not in [r["bytes"] for r in E if r["ret"] == 0]:
-            return v.bad("C12/fail-vanity/not-from-a-served-buffer", "printed phrase encodes %s which no successful entropy request served" % ent.hex())
-        v.bucket("fail-vanity-match-from-earlier-buffer")
+            return v.bad("C12/%s/invalid-phrase" % tagbase, "printed phrase is invalid (%s)" % e)
+        if ent.hex() not in [r["bytes"] for r in E if r["ret"] == 0] or len(words) != xm["L"]:
+            return v.bad("C12/%s/not-from-a-served-buffer" % tagbase,
+                         "a request failed and the printed phrase encodes %s, which no successful entropy request served" % ent.hex())
+        if xm.get("vanity"):
+            key = eth.bip32_derive(bip39.seed(words, ""), eth.default_path(0))
+            addr = eth.address_of_key(key)[2:].lower()
+            if not addr.startswith(xm["prefix"][2:].lower()):
+                return v.bad("C12/fail-vanity/printed-non-matching-candidate",
+                             "after an entropy failure a phrase was printed whose address 0x%s lacks the prefix %s" % (addr, xm["prefix"]))
+            v.bucket("fail-vanity-match-from-earlier-buffer")
+        else:
+            v.bucket("fail-plain-retried-and-served")
     if xm.get("vanity"):
         v.bucket("fail-vanity-j%d" % xm["j"])
         if xm.get("from"):
@@ -205,9 +215,13 @@ def judge_lib(case, obs):
             return v.bad("C12/lib-illegal-length-%d/generated" % L, "Mnemonic::random(%d) returned %r" % (L, o["ok"]["phrase"][:60]))
         return v.bucket("lib-illegal-length-refused")
     nb = bip39.ENT_BYTES[L]
-    if req.get("fail_at"):
+    if req.get("fail_at") or req.get("fail_from"):
         if "ok" in o:
-            return v.bad("C12/lib-fail-L%d/generated" % L, "entropy request failed but a phrase was returned")
+            served = [c["bytes"] for c in calls if c["ret"] == 0]
+            if req.get("fail_at") and served and o["ok"]["phrase"] == " ".join(bip39.encode(bytes.fromhex(served[-1]))):
+                return v.bucket("lib-fail-retried-and-served")
+            return v.bad("C12/lib-fail-L%d/generated" % L, "every usable entropy request failed (errno %s) but a phrase was returned: %r" % (
+                req.get("errno", 5), o["ok"]["phrase"][:40]))
         if not calls or calls[0]["ret"] != -1:
             return v.bad("C12/lib-fail-L%d/no-request" % L, "no failing request observed: %s" % calls)
         return v.bucket("lib-fail")
@@ -279,7 +293,12 @@ def gen(shard, rng, tier):
     elif name == "fail-plain":
         for L in LEGAL:
             for p in ("release", "dev"):
-                for ent in ({"FAIL_AT": 1}, {"FAIL_FROM": 1}, {"MODE": "zero", "FAIL_AT": 1}):
+                ents = [{"FAIL_AT": 1}, {"FAIL_FROM": 1}, {"MODE": "zero", "FAIL_AT": 1}]
+                # the same faults reported with other error numbers (EINTR, EAGAIN, EFAULT, ENOSYS, EPERM): a failure is a failure
+                for en in (4, 11, 14, 38, 1):
+                    ents.append({"FAIL_FROM": 1, "ERRNO": en})
+                    ents.append({"FAIL_AT": 1, "ERRNO": en, "MODE": "prng", "SEED": L})
+                for ent in ents:
                     yield {"j": "fail", "profile": p, "x": {"cls": "fail-plain", "L": L}, "steps": [{"cli": {"argv": ["new", "-n", str(L)], "ent": ent}}]}
     elif name == "kernel":
         for L in LEGAL:
@@ -298,7 +317,9 @@ def gen(shard, rng, tier):
                         prefix = "0x" + "".join(rng.choice("0123456789abcdef") for _ in range(2))
                         ent = {"MODE": "prng", "SEED": rng.randrange(2**62), "CAP": 60000}
                         ent["FAIL_FROM" if frm else "FAIL_AT"] = k
-                        yield {"j": "fail", "profile": "release", "x": {"cls": "fail-vanity", "L": L, "vanity": True, "j": j, "k": k, "from": frm},
+                        if rng.random() < 0.4:
+                            ent["ERRNO"] = rng.choice([4, 11, 14, 38])
+                        yield {"j": "fail", "profile": "release", "x": {"cls": "fail-vanity", "L": L, "vanity": True, "j": j, "k": k, "from": frm, "prefix": prefix},
                                "steps": [{"cli": {"argv": ["new", "-n", str(L), "--vanity-prefix", prefix, "-j", str(j)], "ent": ent, "timeout": 300}}]}
     elif name.startswith("vanity-prov-"):
         for _ in range(shard["count"]):
@@ -315,7 +336,7 @@ def gen(shard, rng, tier):
                 L = rng.randrange(0, 41)
                 req = {"op": "mnemonic.random", "length": L}
             elif r < 0.3:
-                req = {"op": "mnemonic.random", "length": rng.choice(LEGAL), "fail_at": 1}
+                req = {"op": "mnemonic.random", "length": rng.choice(LEGAL), rng.choice(["fail_at", "fail_from"]): 1, "errno": rng.choice([5, 5, 4, 11, 14, 38, 1])}
             else:
                 L = rng.choice(LEGAL)
                 nb = bip39.ENT_BYTES[L]
